@@ -117,4 +117,7 @@ def run(chk, tier):
         chk.expect(asg == {"file.pc_selected": "core::option::Option::Some(pc)", "file.ts_selected": "core::option::Option::Some(ts)"}, "send-plumbing",
                    hh["path"].split("::")[-2] + "::" + hh["path"].split("::")[-1], "selection-stored", "file.pc_selected = Some(pc); file.ts_selected = Some(ts)", asg, loc=C.fn_loc(hh))
     chk.floor("send-plumbing", "callers of check_presentation_contexts", n_store, 2)
+    # the list storescu searches is produced by the client's response processing: its abstract syntax labels must be right
+    from . import shared
+    shared.negotiated_labels(chk, fx, "context-labels")
     chk.undecided.append("that the bytes sent decode to the file's data set (needs execution)")
